@@ -17,7 +17,8 @@ for p in sorted(glob.glob('/verif/seeded/*/meta.json')):
     if kind != 'monitor': bad.append(sid)
     tag = f"AFTER STRENGTHENING (round {rnd})"
     first = r.split('||')[0]
-    needs = ('MISSED' in first or 'only as' in first or 'no-failing-input-found' in first)
+    needs = ('MISSED' in first or 'only as' in first or 'no-failing-input-found' in first or 'no longer checks' in first
+             or 'no-failing-input-found' in r.split('|| AFTER')[0])
     if needs and tag not in r and kind == 'monitor':
         msg = re.sub(r"^violation: MONITOR section=\d+ line=\d+ ", "", msg)
         c['check_result'] = r + f" || {tag}: caught by ./check {m['property']} (quick, {secs} s) with a concrete replay: monitor '{msg[:300]}'"
